@@ -13,11 +13,13 @@ async def _batch(mpc, cases, evaluator, ctxarg, chunk, case_timeout=None):
         pend = []
         for j, case in enumerate(cases[i:i + chunk]):
             pend.append(evaluator(mpc, case, i + j, ctxarg))
-        for p in pend:
+        for j, p in enumerate(pend):
             try:
                 if case_timeout:
                     # virtual-time timeout: a case whose coroutine died (exception inside an MPyC task) never completes
-                    out.append(await asyncio.wait_for(p, case_timeout))
+                    c = cases[i + j]
+                    to = c.get('timeout', case_timeout) if isinstance(c, dict) else case_timeout
+                    out.append(await asyncio.wait_for(p, to))
                 else:
                     out.append(await p)
             except Exception as exc:          # an exception raised by the operation itself
